@@ -229,3 +229,219 @@ def canon_out(events, amap=None):
             d["action_uid"] = amap[au]
         res.append(d)
     return res
+
+
+# ---------------------------------------------------------------- export for ColangSM
+import ast as _pyast
+
+_UIDT = re.compile(r"""^['"]\((.+)\)\{uid\(\)\}['"]$""")
+_STRVAR = re.compile(r"""^['"]\{\$(\w+)\}['"]$""")
+_VAR = re.compile(r"^\$(\w+)$")
+_MEMBER = re.compile(r"^\$(\w+)((?:\.\w+)+)$")
+
+
+def _none():
+    return {"k": "none", "t": "", "v": "", "n": 0, "a": [], "b": []}
+
+
+def classify_expr(s):
+    """Syntactic classification of an expression into ColangSM's fragment (never evaluates).
+    Returns a record {k, t, v, n, a, b}; k = 'unsupported' if outside the fragment."""
+    r = _none()
+    if s is None:
+        r.update(k="const", t="n")
+        return r
+    if isinstance(s, bool):
+        r.update(k="const", t="b", n=1 if s else 0)
+        return r
+    if isinstance(s, int):
+        r.update(k="const", t="i", n=int(s))
+        return r
+    if isinstance(s, float):
+        r.update(k="const", t="f", v=repr(s))
+        return r
+    s = str(s).strip()
+    m = _UIDT.match(s)
+    if m:
+        r.update(k="newuid", v=m.group(1))
+        return r
+    m = _STRVAR.match(s)
+    if m:
+        r.update(k="strvar", v=m.group(1))
+        return r
+    m = _VAR.match(s)
+    if m:
+        r.update(k="var", v=m.group(1))
+        return r
+    m = _MEMBER.match(s)
+    if m:
+        r.update(k="member", v=m.group(1), a=[x for x in m.group(2).split(".") if x])
+        return r
+    if "$" not in s and "{" not in s:
+        try:
+            val = _pyast.literal_eval(s)
+        except Exception:
+            val = _pyast  # sentinel
+        if val is None:
+            r.update(k="const", t="n")
+            return r
+        if isinstance(val, bool):
+            r.update(k="const", t="b", n=1 if val else 0)
+            return r
+        if isinstance(val, int):
+            r.update(k="const", t="i", n=val)
+            return r
+        if isinstance(val, float):
+            r.update(k="const", t="f", v=repr(val))
+            return r
+        if isinstance(val, str):
+            r.update(k="const", t="s", v=val)
+            return r
+    if s in ("True", "False"):
+        r.update(k="const", t="b", n=1 if s == "True" else 0)
+        return r
+    m = re.match(r"^not\s*\((.*)\)$", s) or re.match(r"^not\s+(.*)$", s)
+    if m and _balanced_parens(m.group(1)):
+        inner = classify_expr(m.group(1))
+        if inner["k"] != "unsupported":
+            r.update(k="not", a=[inner])
+            return r
+    if s.startswith("(") and s.endswith(")") and _balanced_parens(s[1:-1]):
+        return classify_expr(s[1:-1])
+    for op, k in (("==", "eq"), ("!=", "ne")):
+        parts = _split_top(s, op)
+        if parts:
+            x, y = classify_expr(parts[0]), classify_expr(parts[1])
+            if x["k"] != "unsupported" and y["k"] != "unsupported":
+                r.update(k=k, a=[x], b=[y])
+                return r
+    parts = _split_top(s, "+")
+    if parts:
+        x, y = classify_expr(parts[0]), classify_expr(parts[1])
+        if x["k"] != "unsupported" and y["k"] == "const" and y["t"] == "i":
+            r.update(k="add", a=[x], n=y["n"])
+            return r
+    r.update(k="unsupported", v=s[:80])
+    return r
+
+
+def _balanced_parens(s):
+    d = 0
+    for c in s:
+        if c == "(":
+            d += 1
+        elif c == ")":
+            d -= 1
+            if d < 0:
+                return False
+    return d == 0
+
+
+def _split_top(s, op):
+    d = 0
+    q = None
+    i = 0
+    while i < len(s):
+        c = s[i]
+        if q:
+            if c == q:
+                q = None
+        elif c in "'\"":
+            q = c
+        elif c in "([{":
+            d += 1
+        elif c in ")]}":
+            d -= 1
+        elif d == 0 and s.startswith(op, i) and 0 < i < len(s) - len(op):
+            return s[:i].strip(), s[i + len(op):].strip()
+        i += 1
+    return None
+
+
+def export_sm_element(el):
+    """Element record for ColangSM: homogeneous fields; expressions classified."""
+    r = {"k": "", "name": "", "var": "", "member": "", "margs": [], "stype": "", "args": [], "ref": "", "internal": False,
+         "label": "", "labels": [], "n": 0, "expr": _none(), "key": "", "unsupported": ""}
+    if isinstance(el, ast.SpecOp):
+        spec = el.spec
+        if not isinstance(spec, ast.Spec):
+            r.update(k="unsupported", unsupported="group spec")
+            return r
+        r["k"] = {"match": "match", "send": "send", "_new_action_instance": "newaction"}.get(el.op, "unsupported")
+        r["name"] = spec.name or ""
+        r["var"] = spec.var_name or ""
+        r["stype"] = spec.spec_type.value if spec.spec_type else ""
+        members = spec.members or []
+        if len(members) > 1:
+            r.update(k="unsupported", unsupported="member chain")
+            return r
+        if members:
+            m0 = members[0]
+            r["member"] = (m0.get("name") if isinstance(m0, dict) else m0.name) or ""
+            margs = (m0.get("arguments") if isinstance(m0, dict) else m0.arguments) or {}
+            r["margs"] = [[str(k), classify_expr(v)] for k, v in sorted(margs.items(), key=lambda kv: str(kv[0]))]
+        r["args"] = [[str(k), classify_expr(v)] for k, v in sorted((spec.arguments or {}).items(), key=lambda kv: str(kv[0]))]
+        if spec.ref is not None:
+            try:
+                r["ref"] = spec.ref["elements"][0]["elements"][0].lstrip("$")
+            except Exception:
+                r.update(k="unsupported", unsupported="ref form")
+                return r
+        r["internal"] = "internal" in (el.info or {})
+        bad = [a for a in r["args"] + r["margs"] if a[1]["k"] == "unsupported"]
+        if bad:
+            r["unsupported"] = "arg expr: " + bad[0][1]["v"]
+    elif isinstance(el, ast.Label):
+        r.update(k="label", label=el.name)
+    elif isinstance(el, ast.Goto):
+        r.update(k="goto", label=el.label, expr=classify_expr(el.expression))
+    elif isinstance(el, ast.ForkHead):
+        r.update(k="fork", key=el.fork_uid, labels=list(el.labels))
+    elif isinstance(el, ast.MergeHeads):
+        r.update(k="merge", key=el.fork_uid)
+    elif isinstance(el, ast.WaitForHeads):
+        r.update(k="wait", n=int(el.number))
+    elif isinstance(el, ast.Assignment):
+        r.update(k="assign", key=el.key, expr=classify_expr(el.expression))
+    elif isinstance(el, ast.Return):
+        r.update(k="return", expr=classify_expr(el.expression) if el.expression else classify_expr(None))
+    elif isinstance(el, ast.Abort):
+        r.update(k="abort")
+    elif isinstance(el, (ast.Break, ast.Continue)):
+        r.update(k="jump", label=el.label or "")
+    elif isinstance(el, ast.CatchPatternFailure):
+        r.update(k="catch", label=el.label or "")
+    elif isinstance(el, ast.BeginScope):
+        r.update(k="beginscope", label=el.name)
+    elif isinstance(el, ast.EndScope):
+        r.update(k="endscope", label=el.name)
+    elif isinstance(el, ast.Priority):
+        r.update(k="priority", expr=classify_expr(el.priority_expr))
+    elif isinstance(el, ast.Global):
+        r.update(k="global", key=el.name.lstrip("$"))
+    elif isinstance(el, (ast.Log, ast.Print)):
+        r.update(k="skip")
+    else:
+        r.update(k="skip")
+    if r["k"] in ("goto", "assign", "return", "priority") and r["expr"]["k"] == "unsupported":
+        r["unsupported"] = "expr: " + r["expr"]["v"]
+    return r
+
+
+def export_sm(st):
+    """The whole program for ColangSM; 'supported' is False if any element is outside the fragment."""
+    flows = []
+    why = []
+    for fid, cfg in st.flow_configs.items():
+        els = [export_sm_element(e) for e in cfg.elements]
+        for i, e in enumerate(els):
+            if e["unsupported"] or e["k"] == "unsupported":
+                why.append("%s[%d]: %s" % (fid, i, e["unsupported"] or e["k"]))
+        labels = sorted(cfg.element_labels.items())
+        params = [{"name": p.name, "default": classify_expr(p.default_value_expr) if p.default_value_expr else classify_expr(None),
+                   "has_default": bool(p.default_value_expr)} for p in cfg.parameters]
+        loop = {"type": cfg.loop_type.name if getattr(cfg, "loop_type", None) else "PARENT", "id": cfg.loop_id or ""}
+        flows.append({"id": fid, "elements": els, "label_names": [l for l, _ in labels], "label_pos": [p for _, p in labels],
+                      "params": params, "loop": loop, "loop_priority": int(getattr(cfg, "loop_priority", 0) or 0),
+                      "n": len(els)})
+    return {"flows": flows, "supported": not why, "why": why[:5]}
